@@ -210,6 +210,8 @@ func init() {
 		"SameObject":      vxSameObject,
 		"IsNilPtr":        vxIsNilPtr,
 		"Fill":            vxFill,
+		"FillAll":         vxFillAll,
+		"FillOne":         vxFillOne,
 		"Dump":            vxDump,
 	}
 }
@@ -266,7 +268,11 @@ func vxFreeze(fr *frame, a []value) value {
 
 func (i *interpreter) frozenWrite(addr *value, what string, nv value) {
 	// writing an identical scalar value is still a write; report it
-	i.assert("frozen", false, fmt.Sprintf("write into frozen %s (old=%s new=%s)", what, strings.TrimSpace(toString(*addr)), strings.TrimSpace(toString(nv))))
+	id := what
+	if k := strings.IndexByte(what, ' '); k > 0 {
+		id = what[:k]
+	}
+	i.assert(id, false, fmt.Sprintf("write into frozen %s (old=%s new=%s) at %s", what, strings.TrimSpace(toString(*addr)), strings.TrimSpace(toString(nv)), i.where()))
 	delete(i.frozen, addr)
 }
 
